@@ -314,6 +314,15 @@ func (ab *rulesPair) equalizeGroups(ra, rb *nsxRule) []change {
 			return
 		}
 		gb := getGroup(lb[0], ab.b.groups)
+		// Group is referenced but not defined in config from Netspoc.
+		// Handle it like an external group.
+		if gb == nil {
+			if la[0] != lb[0] {
+				la[0] = lb[0]
+				changedRuleA = true
+			}
+			return
+		}
 		// No need to change name of group in rule from ga to gb
 		// if gb is known to have values of ga.
 		if gb.nameOnDevice == ga.Id {
